@@ -80,6 +80,62 @@ class CcAnyH(Harness):
         out.append(("cc.Any/default-recorded", [v.id for v in res.default] == [d] + ([c.state_case["second"]] if c.state_case.get("second") else [])))
         return out
 
+    cls_name = "Any"
+
+    def concretise(self, case, k, model, c, st):
+        from pyvc.sym import intern_id
+        from .common import concretise_children
+        fam = st["fam"]
+        kids = concretise_children(model, fam, k, c.env)
+        for j, dsc in enumerate(kids):
+            if dsc["kind"] != "atom":
+                continue
+            for name in ("d", "e"):
+                if z3.is_true(model.eval(fam.fn("id")(z3.IntVal(j)) == intern_id(name).t, model_completion=True)):
+                    dsc["id"] = name
+        return {"case": dict(case), "children": kids}
+
+    def replay(self, w):
+        """the same clauses natively on the witness's children (boolean leaves / small compound children with the
+        witness's truth values); the non-default branch is found by its children, not by the tag the code sets"""
+        import puan.modules.configurator as cc
+        from .common import build_children
+        case = w["case"]
+        d = case["default"]
+        dl = None if not d else [d] + ([case["second"]] if case.get("second") else [])
+        kids, env = build_children(w["children"])
+        if len({k.id for k in kids}) != len(kids) or not kids:
+            return {"violated": [], "detail": {"note": "witness outside the precondition (duplicate child ids / no child)"}}
+        mk = lambda ks: getattr(cc, self.cls_name)(*ks, default=list(dl) if dl else None, variable="A")
+        node = mk(kids)
+        violated, detail = [], {"model": node.to_text(), "default": dl}
+        tvs = [int(mk(build_children(w["children"])[0]).evaluate(dict(env)).constant == 1)]
+        leaf_t = lambda k: env[k.id] if not hasattr(k, "propositions") else int(k.evaluate(dict(env)).constant)
+        n_true = sum(leaf_t(k) for k in build_children(w["children"])[0])
+        want = int(n_true >= 1) if self.cls_name == "Any" else int(n_true == 1)
+        if tvs[0] != want:
+            violated.append(f"cc.{self.cls_name}/truth"); detail.update(interpretation=env, got=tvs[0], want=want)
+        if self.cls_name == "Any" and d is not None:
+            ids = [k.id for k in kids]
+            is_def = [k for k in kids if k.id == d and not hasattr(k, "propositions")]
+            restructure = len(kids) >= 2 and len(is_def) >= 1 and len(is_def) < len(kids)
+            tagged = [x for x in node.propositions if getattr(x, "prio", None) == -2]
+            if restructure:
+                if len(tagged) != 1:
+                    violated += ["cc.Any/struct.prio", "cc.Any/struct.partition"]
+                else:
+                    inner = tagged[0]
+                    outer_rest = [x.id for x in node.propositions if x is not inner]
+                    if sorted(map(str, outer_rest)) != [d] or sorted(str(x.id) for x in inner.propositions) != sorted(str(i) for i in ids if i != d):
+                        violated.append("cc.Any/struct.partition"); detail["outer"] = list(map(str, outer_rest)); detail["inner"] = [str(x.id) for x in inner.propositions]
+                    if int(inner.sign) != 1 or inner.value != 1:
+                        violated.append("cc.Any/struct.inner-is-any")
+            elif tagged:
+                violated.append("cc.Any/struct.restructured-only-when-needed")
+            if [v.id for v in node.default] != dl:
+                violated.append("cc.Any/default-recorded")
+        return {"violated": violated, "detail": detail}
+
 
 class CcXorH(Harness):
     name = "cc.Xor.__init__"
@@ -112,6 +168,26 @@ class CcXorH(Harness):
             halves = [k for k in kids if type(k) is st["cc"].Any]
             out.append(("cc.Xor/defaulted-half-is-cc.Any", len(halves) == 1 and [v.id for v in halves[0].default] == [c.state_case["default"]]))
         return out
+
+    cls_name = "Xor"
+    concretise = CcAnyH.concretise
+
+    def replay(self, w):
+        import puan.modules.configurator as cc
+        r = CcAnyH.replay(self, w)
+        if r["violated"] or "note" in r["detail"]:
+            return r
+        from .common import build_children
+        d = w["case"]["default"]
+        if d:
+            kids, _ = build_children(w["children"])
+            node = cc.Xor(*kids, default=[d], variable="A")
+            halves = [k for k in node.propositions if type(k) is cc.Any]
+            if len(node.propositions) != 2:
+                r["violated"].append("cc.Xor/two-halves")
+            elif len(halves) != 1 or [v.id for v in halves[0].default] != [d]:
+                r["violated"].append("cc.Xor/defaulted-half-is-cc.Any")
+        return r
 
 
 class DefaultPriosH(Harness):
